@@ -400,6 +400,14 @@ def run_bis(tier="quick", seed=0, canary=False):
     sys.path.insert(0, os.path.join(VERIF, "b2"))
     import extract
     import cbmc_run
+    # bounded stand-in on the natively compiled function (also the counterexample search): independent of the extraction
+    wit0 = bis_native_search()
+    res.standins.append(dict(function="utils::binary_interval_search", grid="all sorted ranges of length <= 6 over {0,1,2,3} with repeats x 9 queries", label="bounded"))
+    if wit0:
+        payload = dict(obligation=tag + "/standin", property=PROP, backend="bounded-standin", reason="documented case violated on the natively compiled function", witness=wit0)
+        res.add(tag + "/standin", "bounded-fail", "bounded-standin", 0.0, payload["reason"], witness=wit0, extra=dict(confirmed=True, replay=write_replay(tag + "/standin", payload)))
+    else:
+        res.add(tag + "/standin", "bounded-ok", "bounded-standin", 0.0, "exhaustive small-domain run satisfies the four documented cases")
     try:
         src, log = extract.bis_c_file()
     except extract.RuleError as e:
